@@ -109,10 +109,15 @@ Definition wf (st : sstate) : Prop :=
 Definition safe (st : sstate) : Prop :=
   forall i j t, i <> j -> touches st i t -> touches st j t -> synced st t = true.
 
-(* a call uses a closure that is lexically visible: its scope is reached from the caller's scope *)
+(* a synchronized scope was shared together with everything a lookup reaches from it *)
+Definition closed (st : sstate) : Prop :=
+  forall t u, synced st t = true -> In u (anc st t) -> synced st u = true.
+
+(* a call uses a closure that is lexically visible (its scope is reached from the caller's scope) or whose
+   scope is synchronized already *)
 Definition guard_op (st : sstate) (i : nat) (o : sop) : Prop :=
   match o with
-  | SCall c => exists s rest, nth_error (stacks st) i = Some (s :: rest) /\ In c (anc st s)
+  | SCall c => exists s rest, nth_error (stacks st) i = Some (s :: rest) /\ (In c (anc st s) \/ synced st c = true)
   | _ => True
   end.
 
@@ -146,19 +151,30 @@ Proof.
     + rewrite nth_overflow in H by (rewrite app_length; simpl; lia). contradiction.
 Qed.
 
-(* a push of a new scope n (parents l, all reached from the old top s) on routine i's stack *)
+Lemma synced_lt st t : wf st -> synced st t = true -> t < length (pars st).
+Proof.
+  intros [Hlen _] H. unfold synced in H.
+  destruct (Nat.lt_ge_cases t (length (syn st))) as [Hlt|Hge]; [lia|].
+  rewrite nth_overflow in H by auto. discriminate.
+Qed.
+
+(* a push of a new scope n on routine i's stack; its parents l are reached from the old top s or are
+   synchronized already *)
 Section Push.
   Variables (st : sstate) (i s : nat) (rest l : list nat).
   Let n := length (pars st).
   Let st' := mkSS (pars st ++ [l]) (syn st ++ [false]) (upd (stacks st) i (n :: s :: rest)).
   Hypothesis Hwf : wf st.
+  Hypothesis Hcl : closed st.
   Hypothesis Hstk : nth_error (stacks st) i = Some (s :: rest).
-  Hypothesis Hl : forall p, In p l -> In p (anc st s).
+  Hypothesis Hl : forall p, In p l -> In p (anc st s) \/ synced st p = true.
 
   Lemma push_l_lt : forall p, In p l -> p < n.
   Proof.
-    intros p Hp. apply Hl in Hp. destruct Hwf as [_ [Ho Hs]].
-    apply (walk_le _ Ho) in Hp. pose proof (Hs _ _ _ Hstk (or_introl eq_refl)). unfold n. lia.
+    intros p Hp. destruct (Hl _ Hp) as [Hp'|Hp'].
+    - destruct Hwf as [_ [Ho Hs]].
+      apply (walk_le _ Ho) in Hp'. pose proof (Hs _ _ _ Hstk (or_introl eq_refl)). unfold n. lia.
+    - apply synced_lt; auto.
   Qed.
 
   Lemma push_wf : wf st'.
@@ -179,7 +195,18 @@ Section Push.
     intros x Hx. unfold anc, st'; cbn [pars]. destruct Hwf as [_ [Ho _]]. apply walk_app; auto.
   Qed.
 
-  Lemma push_anc_new : forall t, In t (anc st' n) -> t = n \/ In t (anc st s).
+  Lemma push_synced_old : forall x, x < n -> synced st' x = synced st x.
+  Proof.
+    intros x Hx. unfold synced, st'; simpl. apply app_nth1. destruct Hwf as [Hlen _]. unfold n in Hx. lia.
+  Qed.
+
+  Lemma push_synced_new : synced st' n = false.
+  Proof.
+    unfold synced, st'; simpl. destruct Hwf as [Hlen _]. rewrite app_nth2 by (unfold n; lia).
+    unfold n. rewrite Hlen, Nat.sub_diag. reflexivity.
+  Qed.
+
+  Lemma push_anc_new : forall t, In t (anc st' n) -> t = n \/ In t (anc st s) \/ (synced st t = true /\ t < n).
   Proof.
     intros t H. destruct Hwf as [_ [Ho Hs]].
     unfold anc, st' in H; simpl in H. fold n in H.
@@ -188,24 +215,27 @@ Section Push.
     apply in_flat_map in H. destruct H as [p [Hp Ht]].
     pose proof (push_l_lt _ Hp) as Hlt.
     rewrite walk_app in Ht by auto. rewrite (walk_fuel _ Ho n p Hlt) in Ht.
-    pose proof (Hs _ _ _ Hstk (or_introl eq_refl)) as Hsn.
-    apply Hl in Hp. unfold anc in *.
-    apply (walk_trans _ Ho (S s) s p (Nat.lt_succ_diag_r s) Hp). auto.
+    destruct (Hl _ Hp) as [Hp'|Hp'].
+    - left. unfold anc in *.
+      apply (walk_trans _ Ho (S s) s p (Nat.lt_succ_diag_r s) Hp'). auto.
+    - right. split.
+      + apply (Hcl p t Hp'). exact Ht.
+      + apply (walk_le _ Ho) in Ht. lia.
   Qed.
 
-  Lemma push_touches : forall j t, touches st' j t -> (j = i /\ t = n) \/ touches st j t.
+  Lemma push_touches : forall j t, touches st' j t -> (j = i /\ t = n) \/ touches st j t \/ (synced st t = true /\ t < n).
   Proof.
     intros j t [stk [x [Hn [Hin Ht]]]]. unfold st' in Hn; simpl in Hn.
     destruct Hwf as [_ [Ho Hs]].
     destruct (Nat.eq_dec i j) as [<-|Hne].
     - rewrite nth_error_upd_same in Hn by (apply nth_error_Some; congruence).
       injection Hn as <-. destruct Hin as [<-|Hin].
-      + apply push_anc_new in Ht. destruct Ht as [->|Ht]; [left; auto|].
-        right. exists (s :: rest), s. simpl; auto.
-      + right. exists (s :: rest), x. split; auto. split; auto.
+      + apply push_anc_new in Ht. destruct Ht as [->|[Ht|Ht]]; [left; auto| |right; right; auto].
+        right. left. exists (s :: rest), s. simpl; auto.
+      + right. left. exists (s :: rest), x. split; auto. split; auto.
         rewrite push_anc_old in Ht; auto. apply (Hs _ _ _ Hstk Hin).
     - rewrite nth_error_upd_other in Hn by auto.
-      right. exists stk, x. split; auto. split; auto.
+      right. left. exists stk, x. split; auto. split; auto.
       rewrite push_anc_old in Ht; auto. apply (Hs _ _ _ Hn Hin).
   Qed.
 
@@ -214,33 +244,50 @@ Section Push.
     intros Hsafe a b t Hab Ha Hb.
     apply push_touches in Ha. apply push_touches in Hb.
     assert (Hold : forall j, touches st j t -> t < n) by (intros j Hj; apply (touches_lt st j); auto).
-    assert (Hsyn : touches st a t -> touches st b t -> synced st' t = true).
-    { intros Ta Tb. pose proof (Hsafe a b t Hab Ta Tb) as H. pose proof (Hold _ Ta) as Hlt.
-      unfold synced, st' in *; simpl. rewrite app_nth1; auto. destruct Hwf as [Hlen _]. unfold n in Hlt. lia. }
-    destruct Ha as [[Ea Et]|Ta]; destruct Hb as [[Eb Et']|Tb].
+    assert (Hsy : synced st t = true -> t < n -> synced st' t = true).
+    { intros H Hlt. rewrite push_synced_old; auto. }
+    destruct Ha as [[Ea Et]|[Ta|[Sa La]]]; destruct Hb as [[Eb Et']|[Tb|[Sb Lb]]].
     - exfalso; apply Hab; congruence.
     - apply Hold in Tb. lia.
+    - lia.
     - apply Hold in Ta. lia.
-    - auto.
+    - apply Hsy; [apply (Hsafe a b t Hab Ta Tb)|apply (Hold _ Ta)].
+    - apply Hsy; assumption.
+    - lia.
+    - apply Hsy; assumption.
+    - apply Hsy; assumption.
+  Qed.
+
+  Lemma push_closed : closed st'.
+  Proof.
+    intros t u Ht Hu.
+    destruct (Nat.lt_ge_cases t n) as [Hlt|Hge].
+    - rewrite push_synced_old in Ht by auto. rewrite push_anc_old in Hu by auto.
+      pose proof (Hcl t u Ht Hu) as H. rewrite push_synced_old; auto. apply synced_lt; auto.
+    - destruct (Nat.eq_dec t n) as [->|Hne].
+      + rewrite push_synced_new in Ht. discriminate.
+      + unfold synced, st' in Ht; simpl in Ht. rewrite nth_overflow in Ht; [discriminate|].
+        rewrite app_length; simpl. destruct Hwf as [Hlen _]. unfold n in *. lia.
   Qed.
 End Push.
 
-Lemma step_inv st i o st' : wf st -> safe st -> guard_op st i o -> sstep st i o = Some st' -> wf st' /\ safe st'.
+Lemma step_inv st i o st' : wf st -> safe st -> closed st -> guard_op st i o -> sstep st i o = Some st' ->
+  wf st' /\ safe st' /\ closed st'.
 Proof.
-  intros Hwf Hsafe Hg H. unfold sstep in H.
+  intros Hwf Hsafe Hcl Hg H. unfold sstep in H.
   destruct (nth_error (stacks st) i) as [[|s rest]|] eqn:Hstk; try discriminate.
   destruct o.
   - (* let *)
     injection H as <-.
-    assert (Hl : forall p, In p [s] -> In p (anc st s)).
-    { intros p [<-|[]]. unfold anc. apply walk_self. }
-    split; [apply push_wf|apply push_safe]; auto.
+    assert (Hl : forall p, In p [s] -> In p (anc st s) \/ synced st p = true).
+    { intros p [<-|[]]. left. unfold anc. apply walk_self. }
+    split; [apply push_wf|split; [apply push_safe|apply push_closed]]; auto.
   - (* call *)
     destruct (Nat.ltb c (length (pars st))) eqn:Hc; try discriminate. injection H as <-.
     destruct Hg as [s0 [rest0 [Hstk0 Hin]]]. rewrite Hstk in Hstk0. injection Hstk0 as <- <-.
-    assert (Hl : forall p, In p [c; s] -> In p (anc st s)).
-    { intros p [<-|[<-|[]]]; auto. unfold anc. apply walk_self. }
-    split; [apply push_wf|apply push_safe]; auto.
+    assert (Hl : forall p, In p [c; s] -> In p (anc st s) \/ synced st p = true).
+    { intros p [<-|[<-|[]]]; auto. left. unfold anc. apply walk_self. }
+    split; [apply push_wf|split; [apply push_safe|apply push_closed]]; auto.
   - (* end *)
     injection H as <-. destruct Hwf as [Hlen [Ho Hs]].
     assert (Ht : forall j t, touches (mkSS (pars st) (syn st) (upd (stacks st) i rest)) j t -> touches st j t).
@@ -249,13 +296,14 @@ Proof.
       - rewrite nth_error_upd_same in Hn by (apply nth_error_Some; congruence). injection Hn as <-.
         exists (s :: rest), x. simpl; auto.
       - rewrite nth_error_upd_other in Hn by auto. exists stk, x; auto. }
-    split.
+    split; [|split].
     + split; [auto|split; auto]. simpl. intros j stk x Hn Hin.
       destruct (Nat.eq_dec i j) as [<-|Hne].
       * rewrite nth_error_upd_same in Hn by (apply nth_error_Some; congruence). injection Hn as <-.
         apply (Hs _ _ _ Hstk). simpl; auto.
       * rewrite nth_error_upd_other in Hn by auto. apply (Hs _ _ _ Hn Hin).
     + intros a b t Hab Ha Hb. apply Ht in Ha. apply Ht in Hb. apply (Hsafe a b t Hab Ha Hb).
+    + exact Hcl.
   - (* run *)
     injection H as <-. pose proof Hwf as [Hlen [Ho Hs]].
     set (st' := mkSS (pars st) (mark (anc st s) (syn st)) (stacks st ++ [[s]])).
@@ -267,12 +315,11 @@ Proof.
         destruct (j - length (stacks st)) as [|k] eqn:Hk; simpl in Hn.
         + injection Hn as <-. destruct Hin as [<-|[]]. split; [lia|auto].
         + destruct k; discriminate. }
+    assert (Hsn : s < length (pars st)) by (apply (Hs i (s :: rest) s Hstk); simpl; auto).
     assert (Hmark : forall t, In t (anc st s) -> synced st' t = true).
     { intros t Hin. change (nth t (mark (anc st s) (syn st)) false = true). apply mark_true; [exact Hin|].
-      unfold anc in Hin. apply (walk_le _ Ho) in Hin.
-      assert (Hsn : s < length (pars st)) by (apply (Hs i (s :: rest) s Hstk); simpl; auto).
-      rewrite Hlen. lia. }
-    split.
+      unfold anc in Hin. apply (walk_le _ Ho) in Hin. rewrite Hlen. lia. }
+    split; [|split].
     + split; [|split; auto].
       * change (length (mark (anc st s) (syn st)) = length (pars st)). rewrite mark_length. exact Hlen.
       * unfold st'; cbn [stacks pars]. intros j stk x Hn Hin.
@@ -280,12 +327,51 @@ Proof.
         -- rewrite nth_error_app1 in Hn by auto. apply (Hs _ _ _ Hn Hin).
         -- rewrite nth_error_app2 in Hn by auto.
            destruct (j - length (stacks st)) as [|k]; simpl in Hn.
-           ++ injection Hn as <-. destruct Hin as [<-|[]]. apply (Hs _ _ _ Hstk). simpl; auto.
+           ++ injection Hn as <-. destruct Hin as [<-|[]]. exact Hsn.
            ++ destruct k; discriminate.
     + intros a b t Hab Ha Hb. apply Ht in Ha. apply Ht in Hb.
       destruct Ha as [Ta|[_ Ta]]; [|apply Hmark; auto].
       destruct Hb as [Tb|[_ Tb]]; [|apply Hmark; auto].
       change (nth t (mark (anc st s) (syn st)) false = true). apply mark_mono. apply (Hsafe a b t Hab Ta Tb).
+    + (* closed: what is newly marked lies in anc s, and so does everything reached from it *)
+      intros t u Ht' Hu. change (anc st' t) with (anc st t) in Hu.
+      destruct (in_dec Nat.eq_dec t (anc st s)) as [Hin|Hnin].
+      * apply Hmark. unfold anc in *.
+        apply (walk_trans _ Ho (S s) s t (Nat.lt_succ_diag_r s) Hin). exact Hu.
+      * change (nth t (mark (anc st s) (syn st)) false = true) in Ht'. rewrite mark_other in Ht' by auto.
+        change (nth u (mark (anc st s) (syn st)) false = true). apply mark_mono. apply (Hcl t u Ht' Hu).
+  - (* a synchronized instance scope: no parents, on nobody's stack *)
+    injection H as <-. pose proof Hwf as [Hlen [Ho Hs]].
+    set (n := length (pars st)).
+    set (st' := mkSS (pars st ++ [[]]) (syn st ++ [true]) (stacks st)).
+    assert (Hanc : forall x, x < n -> anc st' x = anc st x).
+    { intros x Hx. unfold anc, st'; cbn [pars]. apply walk_app; auto. }
+    assert (Hsyn : forall x, x < n -> synced st' x = synced st x).
+    { intros x Hx. unfold synced, st'; simpl. apply app_nth1. unfold n in Hx. lia. }
+    assert (Ht : forall j t, touches st' j t -> touches st j t).
+    { intros j t [stk [x [Hn [Hin Ht]]]]. unfold st' in Hn; simpl in Hn.
+      exists stk, x. split; auto. split; auto. rewrite Hanc in Ht; auto. apply (Hs _ _ _ Hn Hin). }
+    split; [|split].
+    + split; [|split].
+      * unfold st'; simpl. rewrite !app_length. simpl. lia.
+      * unfold st'; simpl. apply older_app; auto. intros p [].
+      * unfold st'; simpl. intros j stk x Hn Hin. rewrite app_length; simpl. pose proof (Hs _ _ _ Hn Hin). lia.
+    + intros a b t Hab Ha Hb. apply Ht in Ha. apply Ht in Hb.
+      pose proof (Hsafe a b t Hab Ha Hb) as H. rewrite Hsyn; auto. apply (touches_lt st a); auto.
+    + intros t u Ht' Hu.
+      destruct (Nat.lt_ge_cases t n) as [Hlt|Hge].
+      * rewrite Hsyn in Ht' by auto. rewrite Hanc in Hu by auto.
+        pose proof (Hcl t u Ht' Hu) as H. rewrite Hsyn; auto. apply synced_lt; auto.
+      * destruct (Nat.eq_dec t n) as [->|Hne].
+        -- unfold anc, st' in Hu; simpl in Hu. rewrite app_nth2 in Hu by (fold n; lia).
+           fold n in Hu. rewrite Nat.sub_diag in Hu. simpl in Hu. destruct Hu as [<-|[]]. exact Ht'.
+        -- unfold synced, st' in Ht'; simpl in Ht'. rewrite nth_overflow in Ht'; [discriminate|].
+           rewrite app_length; simpl. fold n. unfold n in *. lia.
+Qed.
+
+Lemma closed_init : closed sinit.
+Proof.
+  intros t u H. destruct t as [|[|t]]; simpl in H; discriminate.
 Qed.
 
 (* every state of every program: any interleaving of lets, calls of visible closures, returns and runs *)
@@ -297,8 +383,8 @@ Lemma guardb_ok st i o : guardb st i o = true -> guard_op st i o.
 Proof.
   destruct o; unfold guardb, guard_op; auto.
   destruct (nth_error (stacks st) i) as [[|s rest]|]; try discriminate.
-  intros H. apply existsb_exists in H. destruct H as [x [Hin Hx]]. apply Nat.eqb_eq in Hx. subst x.
-  exists s, rest. auto.
+  intros H. exists s, rest. split; auto. apply orb_prop in H. destruct H as [H|H]; [left|right; exact H].
+  apply existsb_exists in H. destruct H as [x [Hin Hx]]. apply Nat.eqb_eq in Hx. subst x. exact Hin.
 Qed.
 
 Lemma srun_g_reach : forall sch st st', sreach st -> srun_g st sch = Some st' -> sreach st'.
@@ -310,16 +396,35 @@ Proof.
     apply (IH st1); auto. apply (sr_step st i o st1); auto. apply guardb_ok; auto.
 Qed.
 
-Lemma sreach_inv st : sreach st -> wf st /\ safe st.
+Lemma sreach_inv st : sreach st -> wf st /\ safe st /\ closed st.
 Proof.
-  induction 1 as [|st i o st' _ [Hwf Hsafe] Hg Hstep].
-  - split; [apply wf_init|apply safe_init].
+  induction 1 as [|st i o st' _ [Hwf [Hsafe Hcl]] Hg Hstep].
+  - split; [apply wf_init|split; [apply safe_init|apply closed_init]].
   - apply (step_inv st i o st'); auto.
 Qed.
 
 Theorem shared_scope_synchronized : forall st i j t,
   sreach st -> i <> j -> touches st i t -> touches st j t -> synced st t = true.
-Proof. intros st i j t H. apply (proj2 (sreach_inv st H)). Qed.
+Proof. intros st i j t H. apply (proj1 (proj2 (sreach_inv st H))). Qed.
+
+(* what run is for: after (run form) in scope s every scope a lookup reaches from s is synchronized - all parents of
+   every scope on the way, also those that come after a parent that was synchronized before *)
+Theorem run_synchronizes_all_reachable : forall st i st' stk s t,
+  sreach st -> sstep st i SRun = Some st' -> nth_error (stacks st) i = Some (s :: stk) -> In t (anc st s) ->
+  synced st' t = true.
+Proof.
+  intros st i st' stk s t Hr Hstep Hstk Hin. destruct (sreach_inv st Hr) as [[Hlen [Ho Hs]] _].
+  unfold sstep in Hstep. rewrite Hstk in Hstep. injection Hstep as <-.
+  change (nth t (mark (anc st s) (syn st)) false = true). apply mark_true; auto.
+  unfold anc in Hin. apply (walk_le _ Ho) in Hin.
+  assert (s < length (pars st)) by (apply (Hs i (s :: stk) s Hstk); simpl; auto). lia.
+Qed.
+
+(* ... and a synchronized scope has everything it reaches synchronized (which is why a walk MAY skip what lies
+   behind a synchronized parent - but not the parents next to it) *)
+Theorem synchronized_scope_is_closed : forall st t u,
+  sreach st -> synced st t = true -> In u (anc st t) -> synced st u = true.
+Proof. intros st t u H. apply (proj2 (proj2 (sreach_inv st H))). Qed.
 
 (* locker.go: "changing from one to the other should only be done while there is only one thread using the
    Locker": whenever run switches the locker of scope t, no other routine can reach t *)
@@ -340,7 +445,7 @@ Qed.
 
 (* a program that never calls run pays nothing: no scope gets a mutex *)
 Definition norun (sch : list (nat * sop)) : bool :=
-  forallb (fun io => match snd io with SRun => false | _ => true end) sch.
+  forallb (fun io => match snd io with SRun | SInst => false | _ => true end) sch.
 
 Lemma nth_app_false (l : list bool) t : (forall x, nth x l false = false) -> nth t (l ++ [false]) false = false.
 Proof.
@@ -379,6 +484,27 @@ Proof.
   eexists. split; [reflexivity|]. split; [|split; [|reflexivity]].
   - exists [2; 0], 2. split; [reflexivity|]. split; [simpl; auto|]. vm_compute. auto.
   - exists [3; 0], 3. split; [reflexivity|]. split; [simpl; auto|]. vm_compute. auto.
+Qed.
+
+(* REFUTED for the seeded Share that stops at the first synchronized parent (break): a closure made in scope 1 is
+   called from scope 1 and starts a routine (everything shared); it is called again from a fresh let (scope 3):
+   the call scope 4 has the parents [1; 3], 1 is synchronized, the walk stops, 3 stays unsynchronized although the
+   new routine reaches it *)
+Definition break_witness : list (nat * sop) :=
+  [(0, SLet); (0, SCall 1); (0, SRun); (0, SEnd); (0, SLet); (0, SCall 1); (0, SRun)].
+Theorem share_stopping_at_synchronized_parent_refuted :
+  exists st, srun_break sinit break_witness = Some st /\ touches st 0 3 /\ touches st 2 3 /\ synced st 3 = false.
+Proof.
+  eexists. split; [reflexivity|]. split; [|split; [|reflexivity]].
+  - exists [4; 3; 1; 0], 3. split; [reflexivity|]. split; [simpl; auto|]. vm_compute. auto.
+  - exists [4], 4. split; [reflexivity|]. split; [simpl; auto|]. vm_compute. auto.
+Qed.
+(* the same history with the real Share: scope 3 is synchronized *)
+Theorem share_example_two_calls :
+  exists st, srun_g sinit break_witness = Some st /\ sreach st /\ map (synced st) [0; 1; 2; 3; 4] = [true; true; true; true; true].
+Proof.
+  eexists. split; [reflexivity|]. split; [|reflexivity].
+  apply (srun_g_reach break_witness sinit); [apply sr_init|reflexivity].
 Qed.
 
 (* non-vacuity: the documented example (let, two runs from it, the routines call a visible closure) is inside
